@@ -511,6 +511,7 @@ class Driver(object):
         self.conc_seed = conc_seed
         self.shadow = False
         self.vary_threads = True
+        self.vary_subclass = True  # some runs use an undecorated subclass of the (default-parameter) operation class
         self.vary_caller = True  # some runs are started while the caller is handling an exception (sys.exc_info() is set)
         self.check_default_lookup = False
         self.returned_exceptions = False
@@ -756,6 +757,17 @@ class Driver(object):
             self._mm(out, 'idle', idx, (False, False, None, False), obs,
                      'recorder not idle after the run (recording, replaying, current id, forced)')
 
+    def _subclass_of(self, cls):
+        cache = self.__dict__.setdefault('_subclasses', {})
+        if cls not in cache:
+            parts = cls.__name__.split('_', 1)
+            sub = type(parts[0] + 'Sub_' + parts[1], (cls,), {})
+            sub.__module__ = opclasses.__name__
+            sub.__qualname__ = sub.__name__
+            setattr(opclasses, sub.__name__, sub)
+            cache[cls] = sub
+        return cache[cls]
+
     def _in_caller_context(self, fn, i0):
         """Where the caller stands is a presentation of the run, not part of it: every fourth run is started from inside
         an exception handler of the caller (as a fallback path would), so that sys.exc_info() is not empty."""
@@ -809,6 +821,12 @@ class Driver(object):
             ScriptedRandom.queue = [rate + (1.0 - rate) * 0.5] * 4
         ScriptedRandom.drawn = []
         cls = self.pyclasses[(enter['cls'], ctx.extractor != 'none')]
+        cp = self.classes[enter['cls']]
+        if self.vary_subclass and not enter['cls'].endswith('c') and cp['rate'] == 'one' and not cp['ignoreForce'] \
+                and not cp['skipped'] and not cp.get('copyOn') and (self.beh_hash // 11 + i0) % 3 == 0:
+            # the operation runs on an undecorated *subclass* of the class that carries the recording parameters (which
+            # are the defaults here): the recording belongs to the class the operation ran on
+            cls = self._subclass_of(cls)
         log0 = len(self.spy.log)
         ncreated0 = len(self.spy.created)
         copy_patch = _CopyFaultPatch(ctx)
@@ -818,6 +836,10 @@ class Driver(object):
         def invoke():
             if enter['cls'].endswith('c'):
                 return cls.execute()
+            if not self.recorder.recording_enabled and (self.beh_hash // 5 + i0) % 2 == 0:
+                # recording disabled = pure pass-through, however the operation is invoked: here without any positional
+                # argument (the instance is passed by keyword)
+                return cls.execute(self=cls())
             return cls().execute()
         with copy_patch:
             try:
@@ -1098,7 +1120,10 @@ class Driver(object):
             meta_cls = recording.get_metadata()[TapeRecorder.OPERATION_CLASS]
             exp_cls[0] = meta_cls
             parts = meta_cls.__name__.split('_')
-            op_cls = self.pyclasses[(parts[0], parts[1] == 'x')]
+            base = parts[0][:-3] if parts[0].endswith('Sub') else parts[0]
+            op_cls = self.pyclasses[(base, parts[1] == 'x')]
+            if parts[0].endswith('Sub'):
+                op_cls = self._subclass_of(op_cls)
             if parts[0].endswith('c'):
                 return op_cls.execute()
             return op_cls().execute()
